@@ -211,7 +211,7 @@ func runC10(c *Ctx) {
 			}
 		}
 	}
-	R.Floor("R10.1:typestate-functions", nf, 9)
+	R.Floor("R10.1:typestate-functions", nf, 6)
 	R.Analysed["typestate_paths"+map[bool]string{true: "", false: "_" + c.P.GOOS}[c.P.GOOS == "linux"]] = npaths
 	checkNoPartialSuccess(c)
 	checkCausePreserved(c)
@@ -597,7 +597,7 @@ func checkNoPartialSuccess(c *Ctx) {
 			}
 		}
 	}
-	R.Floor("R10.2:upward-functions", n, 10)
+	R.Floor("R10.2:upward-functions", n, 6)
 }
 
 func runPathFuncs(c *Ctx) map[*ssa.Function]bool {
@@ -796,7 +796,7 @@ func checkGoroutineJoin(c *Ctx) {
 			R.Check(!leak, "R10.4", fmt.Sprintf("%s#spawn[%d]", fn, i), sp.Pos(), fn, "every path from the spawn to a return passes a Wait()", "a return is reachable after the spawn without joining the goroutine: it can outlive the call")
 		}
 	}
-	R.Floor("R10.4:spawn-sites", n, 6)
+	R.Floor("R10.4:spawn-sites", n, 3)
 }
 
 // checkFilterErrChecked is R10.5.
@@ -828,5 +828,5 @@ func checkFilterErrChecked(c *Ctx) {
 			}
 		}
 	}
-	R.Floor("R10.5:SetPacketFilter-sites", n, 5)
+	R.Floor("R10.5:SetPacketFilter-sites", n, 4)
 }
